@@ -58,22 +58,35 @@ let show_reason (o : (entry * ascii list option) option) : String.t =
 
 let show_entries (l : entry list) : String.t = enc_list ',' (fun e -> enc_str (entry_str e)) l
 
-let handle (f : String.t array) : String.t =
-  match f.(0) with
-  | "case" ->
+let show_db (db : stackv list) : String.t =
+  String.concat "|" (List.map (fun s ->
+    String.concat "@" [enc_str s.st_id;
+      String.concat "," (List.map (fun ((n, v), fl) -> String.concat "~" [enc_str n; enc_str v; enc_str fl]) s.st_decl);
+      String.concat "," (List.map (fun (((n, fl), t), v) -> String.concat "~" [enc_str n; enc_str fl; enc_str t; enc_str v])
+                           s.st_chain)]) db)
+
+let dec_mut (s : String.t) : mut =
+  match split_on_string '~' s with
+  | ["A"; t; n; v; st] -> MAssign (dec_str t, dec_str n, dec_str v, dec_opt st)
+  | ["U"; t; n; v; st] -> MUnassign (dec_str t, dec_str n, dec_opt v, dec_opt st)
+  | ["D"; n; v; st; t] -> MDeclare (dec_str n, dec_str v, dec_str st, dec_opt t)
+  | ["X"; n; v; st] -> MUndeclare (dec_str n, dec_str v, dec_opt st)
+  | _ -> failwith "bad change"
+
+(* the answer fields of op case, on the database view db *)
+let case_fields (f : String.t array) (db : stackv list) : String.t list =
     let cfg0 = site_config (words f.(1)) [dec_str f.(2)] in
     let cfg = if f.(3) = "-" then cfg0 else { cfg0 with cfg_vro = dec_vrocfg f.(3) } in
     let o = { o_keep = bool_of_field f.(4); o_exact = bool_of_field f.(5); o_inexact = bool_of_field f.(6);
               o_tags = words f.(8); o_posttags = words f.(9); o_productdir = false;
               o_vnamed = bool_of_field f.(7) } in
-    let db = dec_db f.(10) in
     let flavors = words f.(11) in
     let depth = nat_of_int (int_of_string f.(12)) in
     let rq = { rq_name = dec_str f.(13); rq_version = dec_opt f.(14); rq_expr = dec_opt f.(15) } in
     let prev = dec_prev f.(16) in
     let pref0 = show_entries (initial_preferred cfg) in
     (match select_vro cfg o with
-     | Err k -> String.concat "\t" ["ok"; pref0; "err:" ^ err_name k]
+     | Err k -> ["ok"; pref0; "err:" ^ err_name k]
      | Ok vro ->
        let f0 = (match flavors with x :: _ -> x | [] -> []) in
        let walk = find_from_vro vcmp_simple vmatch_simple cfg db prev f0 depth vro rq in
@@ -87,8 +100,28 @@ let handle (f : String.t array) : String.t =
        let spec_in = designates_in vcmp_simple vmatch_simple cfg db rq.rq_name vr f0 vro in
        let spec = designates vcmp_simple vmatch_simple cfg db flavors depth vro rq in
        let wfok = wf_db db in
-       String.concat "\t" ["ok"; pref0; show_entries vro; show_found wf_; show_reason wr; rf; rr;
-                           show_found spec_in; show_found spec; field_of_bool wfok])
+       ["ok"; pref0; show_entries vro; show_found wf_; show_reason wr; rf; rr;
+        show_found spec_in; show_found spec; field_of_bool wfok])
+
+let handle (f : String.t array) : String.t =
+  match f.(0) with
+  | "case" -> String.concat "\t" (case_fields f (dec_db f.(10)))
+  | "caseq" ->
+    (* a question put to a long-lived instance after the changes of field 17 (coq/Model/ResolveSeq.v): fields 1-16 as
+       for case (field 10 the INITIAL view), 17 the changes so far, oldest first, separated by semicolons:
+         A~tag~name~version~stack?   U~tag~name~version?~stack?   D~name~version~stack~tag?   X~name~version~stack?
+       (an optional word is - or =word), 18 the tags to look up.
+       answer: as for case, evaluated on view_after, then the view itself (as field 10), find_tagged for the tags of
+       field 18 (first flavor) and find_version for the version of the request (- when none is named) *)
+    let flavors = words f.(11) in
+    let db = view_after flavors (dec_db f.(10)) (List.map dec_mut (split_sep ';' f.(17))) in
+    let f0 = hd_flavor flavors in
+    let n = dec_str f.(13) in
+    let tagged = enc_list ',' (fun t -> show_found (find_tagged vcmp_simple db n t f0)) (words f.(18)) in
+    let ver = (match dec_opt f.(14) with
+        | Some v when not (is_expr v) -> show_found (find_version db n v f0)
+        | _ -> "-") in
+    String.concat "\t" (case_fields f db @ [show_db db; tagged; ver])
   | "casev" ->
     (* the same case with the comparator and the matcher of C10 (coq/Model/ResolveReal.v): fields as for case.
        answer: ok, pref0, vro, walk found, walk reason, resolve found (or err:kind), resolve reason, designates_in,
